@@ -11,6 +11,7 @@ pub mod p01_accessors;
 pub mod p02_queries;
 pub mod p03_flat;
 pub mod p04_container;
+pub mod p09_bitmap;
 pub mod p19_address;
 pub mod p20_endian;
 
@@ -22,6 +23,7 @@ pub fn properties() -> Vec<Property> {
         p02_queries::property(),
         p03_flat::property(),
         p04_container::property(),
+        p09_bitmap::property(),
         p19_address::property(),
         p20_endian::property(),
     ]
